@@ -28,7 +28,17 @@ def same(a, b):
     aa, bb = onp.asarray(a), onp.asarray(b)
     # (a NumPy scalar and a 0-d array are different kinds of value: hashable / immutable versus not)
     return isinstance(a, onp.ndarray) == isinstance(b, onp.ndarray) and aa.shape == bb.shape and aa.dtype == bb.dtype \
-        and bool(onp.array_equal(aa, bb, equal_nan=True))
+        and bool(onp.array_equal(aa, bb, equal_nan=True)) and same_zero_signs(aa, bb)
+
+
+def same_zero_signs(aa, bb):
+    """-0.0 and +0.0 are different values (1/x tells them apart): zeros carry the same sign in both"""
+    if aa.dtype.kind == "c":
+        return same_zero_signs(aa.real, bb.real) and same_zero_signs(aa.imag, bb.imag)
+    if aa.dtype.kind != "f":
+        return True
+    z = aa == 0
+    return bool(onp.array_equal(onp.signbit(aa[z]), onp.signbit(bb[z])))
 
 
 def templates(rng):
@@ -37,6 +47,7 @@ def templates(rng):
     s2 = (rng.choice([1, 2, 3]), rng.choice([1, 2, 3]))
     a2, b2 = arr(rng, s2), arr(rng, s2)
     v3, w3 = arr(rng, (3,)), arr(rng, (3,))
+    nz3 = onp.array([-0.0, 1.5, -0.0])
     a23 = onp.arange(6.0).reshape(2, 3) + arr(rng, (2, 3)) * 10.0
     T += [("concatenate-0", lambda m, x: m.concatenate([x, b2], axis=0), a2),
           ("concatenate-1", lambda m, x: m.concatenate((b2, x), axis=1), a2),
@@ -164,6 +175,18 @@ def templates(rng):
          ("append-axis--1", lambda m, x: m.append(x, m3, axis=-1), m3 * 2),
          ("append-list-first", lambda m, x: m.append([1.0, 2.0], x), v3),
          ("select-default-0", lambda m, x: m.select([x > 1, x < -1], [x, -x]), v3),
+         # operators next to their neutral elements, on data with negative zeros (0 + (-0.0) is +0.0, (-0.0) * 1 is -0.0, ...)
+         ("int-zero-radd", lambda m, x: 0 + x, nz3), ("int-zero-add", lambda m, x: x + 0, nz3), ("float-zero-radd", lambda m, x: 0.0 + x, nz3),
+         ("builtin-sum-of-two", lambda m, x: sum([x, x]), nz3), ("builtin-sum-of-one", lambda m, x: sum([x]), nz3),
+         ("builtin-sum-of-entries", lambda m, x: sum(x[i] for i in range(3)), nz3), ("builtin-sum-start", lambda m, x: sum([x, x], x), nz3),
+         ("int-one-rmul", lambda m, x: 1 * x, nz3), ("int-one-mul", lambda m, x: x * 1, nz3), ("int-one-div", lambda m, x: x / 1, nz3),
+         ("int-zero-sub", lambda m, x: x - 0, nz3), ("int-zero-rsub", lambda m, x: 0 - x, nz3), ("neg", lambda m, x: -x, nz3),
+         ("pow-one", lambda m, x: x ** 1, nz3), ("np-sum", lambda m, x: m.sum(x[:1]), nz3), ("np-add-zero", lambda m, x: m.add(0, x), nz3),
+         ("mul-neg-zero", lambda m, x: x * -0.0, nz3), ("abs", lambda m, x: m.abs(x), nz3), ("sqrt-of-neg-zero", lambda m, x: m.sqrt(x[:1]), nz3),
+         ("select-traced-default-constant-choices", lambda m, x: m.select([w3 > 1.0, w3 < -1.0], [w3 * 2.0, w3 * 3.0], default=x[0]), v3),
+         ("select-traced-array-default", lambda m, x: m.select([w3 > 100.0], [w3], default=x), v3),
+         ("select-choice-as-list-of-traced-scalars", lambda m, x: m.select([w3 > 0.0, w3 <= 0.0], [[x[0], 2 * x[0], 3 * x[1]], w3], default=0.0), v3),
+         ("select-untraced-conditions-traced-default-kw", lambda m, x: m.select(condlist=[w3 > 0.0], choicelist=[w3], default=x[1] * 2.0), v3),
          ("select-2d", lambda m, x: m.select([x > 0, x <= 0], [x * 2, x * x], default=-1.5), m3),
          ("select-tuple-args", lambda m, x: m.select((x > 0,), (x,), 3.0), v3),
          ("select-broadcast", lambda m, x: m.select([x > 0], [x[:1] * onp.ones(3)], default=0.5), v3),
